@@ -6,12 +6,17 @@
 (* a new block.  Modelled as: v may join ANY new block that contains SOME      *)
 (* element with the same signature (a superset of the code's behaviours).      *)
 EXTENDS DfaUniverse
-VARIABLES D, VV, done
-vars == <<D, VV, done>>
+VARIABLES D, VV, done, stage
+vars == <<D, VV, done, stage>>
 
-Init == /\ D \in AllDfas
-        /\ VV = {D.F, Q \ D.F}          \* the code starts with [F, Q - F]; an empty block vanishes in round 1
-        /\ done = FALSE
+Init == D = DummyDfa /\ VV = {} /\ done = FALSE /\ stage = 0
+PickF == /\ stage = 0 /\ stage' = 1
+         /\ \E F \in SUBSET Q : D' = [DummyDfa EXCEPT !.F = F]
+         /\ UNCHANGED <<VV, done>>
+PickD == /\ stage = 1 /\ stage' = 2
+         /\ D' \in DfasWithF(D.F)
+         /\ VV' = {D.F, Q \ D.F}         \* the code starts with [F, Q - F]; an empty block vanishes in round 1
+         /\ UNCHANGED done
 
 BlockOf(PP, q) == CHOOSE B \in PP : q \in B
 SameSig(PP, v, w) == \A a \in S : BlockOf(PP, Delta(D, v, a)) = BlockOf(PP, Delta(D, w, a))
@@ -34,20 +39,21 @@ RefineAll(PP, blocks, acc) ==
        IN UNION {RefineAll(PP, blocks \ {V}, acc \cup WW) : WW \in FirstFit(PP, V, {})}
 
 Round ==
-  /\ ~done
+  /\ stage = 2 /\ ~done
   /\ \E VV1 \in RefineAll(VV \ {{}}, VV \ {{}}, {}) :
         IF VV1 = VV THEN done' = TRUE /\ VV' = VV
         ELSE done' = FALSE /\ VV' = VV1
-  /\ UNCHANGED D
+  /\ UNCHANGED <<D, stage>>
 
-Next == Round
+Next == PickF \/ PickD \/ Round
 Spec == Init /\ [][Next]_vars /\ WF_vars(Next)
 
 M == BlockDfa(D, VV)
-PartitionInv == /\ IsPartition(VV \ {{}}, Q)
+PartitionInv == stage = 2 =>
+                /\ IsPartition(VV \ {{}}, Q)
                 /\ \A C \in NerodePartition(D) : \E B \in VV : C \subseteq B
 DoneIsNerode == done => VV = NerodePartition(D)
 DoneResultOk == done => ResultOk(D, M)
-InputUnchanged == [][D' = D]_vars
+InputUnchanged == [][stage = 2 => D' = D]_vars
 Terminates == <>done
 =============================================================================
